@@ -20,7 +20,7 @@
 From Coq Require Import List ZArith NArith Bool.
 From Jade Require Import Base.
 From Jade Require Cancel CancelProofs.
-From Jade Require System SystemMonitors SystemTheorems SystemFault SystemComplete SystemOutcome SystemAcyclic.
+From Jade Require System SystemMonitors SystemTheorems SystemFault SystemComplete SystemOutcome SystemAcyclic SystemReference.
 From Jade.Props Require SysExamples.
 Import ListNotations.
 
@@ -112,4 +112,27 @@ Print Assumptions c03_complete_when_checked.
 
 Example c03_checked_nonvacuous :
   (SystemFault.acyclicb SysExamples.ex_sc && SystemFault.nodes_okb SysExamples.ex_sc)%bool = true.
+Proof. vm_compute. reflexivity. Qed.
+
+(* the property as stated: the final results are the reference evaluation of the dependency graph (an executable
+   function of the jobs' dependencies, flags and exit codes alone), nothing missing - for every fault-free run, whatever
+   the batching parameters, groups, node limit, number of rounds and interleaving *)
+Theorem c03_rows_are_the_reference : forall sc tr s,
+  (SystemFault.acyclicb sc && SystemFault.nodes_okb sc)%bool = true ->
+  System.run sc tr = Some s -> SystemFault.fault_free sc System.init tr = true ->
+  forall rw, In rw (System.rows s) -> In rw (SystemReference.reference sc).
+Proof. exact SystemReference.rows_are_the_reference. Qed.
+Print Assumptions c03_rows_are_the_reference.
+
+Theorem c03_final_results_are_the_reference : forall sc tr1 p res miss tr2 s,
+  (SystemFault.acyclicb sc && SystemFault.nodes_okb sc)%bool = true ->
+  System.run sc (tr1 ++ System.ESummary p res miss :: tr2) = Some s ->
+  SystemFault.fault_free sc System.init (tr1 ++ System.ESummary p res miss :: tr2) = true ->
+  miss = [] /\ forall r, In r res <-> In r (SystemReference.reference sc).
+Proof. exact SystemReference.final_results_are_the_reference. Qed.
+Print Assumptions c03_final_results_are_the_reference.
+
+(* the example: job 0 succeeds, its flagged dependent 1 runs, job 2 fails with its own code *)
+Example c03_reference_example : SystemReference.reference SysExamples.ex_sc =
+  [SysExamples.rw 0 0; SysExamples.rw 1 0; SysExamples.rw 2 2].
 Proof. vm_compute. reflexivity. Qed.
